@@ -15,11 +15,11 @@ NEEDS = ["harness", "cli"]
 EXHAUSTIVE = {"quick": True, "thorough": True}
 RULE = ("npy files (1-4 axes, 136-700 bytes, dtypes f8/f4/i4/u2/i8, versions 1-3): every truncation offset 0..len-1 and every extension 1..16 (random, zero, another npy file or its first bytes, and damaged Fortran-order files, "
         "and whitespace-only bytes), declared shapes that disagree with the number of values incl. products that agree only modulo 2^64, at L for all files and at C (view, fold, stat) for a subset; text files: every single token removal, duplication/insertion "
-        "(on the value line and on extra lines), and shape edits that change the product; each damaged input must be REJECTED: Err at L; exit != 0, "
-        "empty stdout, no panic at C. Non-trivial: every damaged input; distinct = digest(bytes).")
+        "(on the value line and on extra lines), value lines wrapped over several lines with a line / token missing or repeated, and shape edits that change the product; each damaged input must be REJECTED: Err at L; exit != 0, "
+        "empty stdout, no panic at C (a quarter of the text cases again with stderr -> /dev/full: still exit != 0). Non-trivial: every damaged input; distinct = digest(bytes).")
 ASSUMPTIONS = ["a text shape edit that keeps the product (e.g. 2/6 -> 3/4) is a different valid file and is not generated",
                "truncating a text file inside trailing whitespace/newline yields the same spectrum and is not a damage case"]
-FLOORS = {"quick": {"evaluations": 15000, "distinct_nontrivial": 12000, "counts": {"L_truncations": 8000, "L_extensions": 600, "C_damaged_runs": 1500, "text_edits": 1500}},
+FLOORS = {"quick": {"evaluations": 15000, "distinct_nontrivial": 12000, "counts": {"L_truncations": 8000, "L_extensions": 600, "C_damaged_runs": 1500, "text_edits": 1500, "C_damaged_runs_stderr_full": 300, "text_wrapped_controls": 50}},
           "thorough": {"evaluations": 250000, "distinct_nontrivial": 200000, "counts": {"L_truncations": 150000, "L_extensions": 9000, "C_damaged_runs": 30000, "text_edits": 25000}}}
 NSHARD = 32
 SUBS = [["view"], ["fold"], ["stat", "-s", "sum"]]
@@ -176,6 +176,21 @@ def text_edits(rng, shape, toks):
     for k in (1, 2, 5):                                  # surplus tokens on extra lines
         yield "extra line with %d token(s)" % k, (head + " ".join(toks) + "\n" + " ".join(rng.choice(toks) for _ in range(k)) + "\n").encode()
     yield "values wrapped over lines plus one", (head + "\n".join(toks) + "\n" + toks[0] + "\n").encode()
+    # the value line wrapped over several lines (one row per line, or cut at random places): what is missing is still missing
+    if n >= 3:
+        row = shape[-1] if len(shape) > 1 and 1 < shape[-1] < n else max(1, n // 3)
+        rows = [toks[a:a + row] for a in range(0, n, row)]
+        def text_of(rs):
+            return (head + "\n".join(" ".join(r_) for r_ in rs) + "\n").encode()
+        yield "wrapped over %d lines, last line missing" % len(rows), text_of(rows[:-1])
+        yield "wrapped over %d lines, first line missing" % len(rows), text_of(rows[1:])
+        if len(rows) >= 3:
+            yield "wrapped over %d lines, a middle line missing" % len(rows), text_of(rows[:1] + rows[2:])
+        yield "wrapped over %d lines, last line twice" % len(rows), text_of(rows + rows[-1:])
+        k_ = rng.randrange(len(rows))
+        if len(rows[k_]) > 1:
+            yield "wrapped over %d lines, one token of line %d missing" % (len(rows), k_), text_of(rows[:k_] + [rows[k_][1:]] + rows[k_ + 1:])
+        yield "wrapped over %d lines, one token added to line %d" % (len(rows), k_), text_of(rows[:k_] + [rows[k_] + [toks[0]]] + rows[k_ + 1:])
     yield "no values", head.encode()
     yield "half the values", (head + " ".join(toks[:n // 2]) + "\n").encode()
     # shape edits that change the product
@@ -205,12 +220,29 @@ def check_text(S, p):
         if g.rc != 0:
             S.viol("C16:valid-rejected", "[C view] undamaged text file rejected: %r" % g.err[:200], {"level": "C", "input_b64": E.b64(good)})
             continue
+        # control: the same values wrapped over several lines are the same spectrum
+        n_ = len(toks)
+        row_ = shape[-1] if len(shape) > 1 and 1 < shape[-1] < n_ else max(1, n_ // 3)
+        wrapped = ("#SHAPE=<%s>\n%s\n" % ("/".join(map(str, shape)), "\n".join(" ".join(toks[a:a + row_]) for a in range(0, n_, row_)))).encode()
+        gw = cli.sfs(["view"], stdin=wrapped)
+        S.count("text_wrapped_controls")
+        if gw.rc != 0 or gw.out != g.out:
+            S.viol("C16:valid-rejected", "[C view] undamaged text file with the values wrapped over lines: rc %s stdout %r stderr %r; on one line: %r" % (
+                gw.rc, gw.out[:100], gw.err[:200], g.out[:100]), {"level": "C", "input_b64": E.b64(wrapped)})
         for k, (desc, d) in enumerate(text_edits(rng, shape, toks)):
             sub = SUBS[k % 3]
             r = cli.sfs(sub, stdin=d) if k % 2 else cli.sfs(sub + [E.tmpfile(d, ".sfs")])
             S.count("text_edits")
             S.count("C_damaged_runs")
             check_cli_reject(S, r, "text shape %r: %s" % (shape, desc), sub, d)
+            if k % 4 == 1:
+                # the rejection must not depend on the diagnostic being deliverable: stderr pointing at a full device
+                r2 = cli.sfs(sub, stdin=d, stderr_path="/dev/full")
+                S.count("C_damaged_runs_stderr_full")
+                if r2.rc == 0 or r2.out:
+                    from .. import replay as R_
+                    S.viol("C16:cli-accepted:stderr-full:%s" % sub[0], "[C %r on text shape %r: %s, stderr -> /dev/full] damaged input must still be rejected: rc %s stdout %r" % (
+                        sub, shape, desc, r2.rc, r2.out[:100]), {"level": "C", "argv": r2.argv, "input_b64": E.b64(d), "stderr": "/dev/full", "rc": r2.rc})
             S.case(key=digest(d), nontrivial=True)
             if fi == 0 and p["i"] == 1 and k == 2:
                 S.sample({"level": "C", "damage": desc, "input": d.decode()[:200], "argv": r.argv, "rc": r.rc, "stderr": r.err.decode()[:200]})
